@@ -19,5 +19,5 @@ INIT Init
 NEXT Next
 VIEW View
 INVARIANTS TypeOK Envelope LocalNeverShared SingleProbe KillSwitch
-PROPERTIES EnvelopeStep Containment LocalNoTrace ProbeFollowersWait SuccessResets KillSwitchStep NoUpstreamOnHit
+PROPERTIES EnvelopeStep EnvelopeStepProp Containment LocalNoTrace OnlyWhatFailed ProbeFollowersWait SuccessResets KillSwitchStep NoUpstreamOnHit
 CHECK_DEADLOCK FALSE
